@@ -35,6 +35,9 @@ func GenTables(which string) {
 	if which == "" || which == "C03" {
 		genTablesC03()
 	}
+	if which == "" || which == "C15" {
+		GenTablesC15()
+	}
 }
 
 func genTablesC03() {
